@@ -79,9 +79,10 @@ static inline void Dist__gamma(Dist *d, double shape, double scale) { d->kind = 
 static inline void Dist__exponential(Dist *d, double lambda) { d->kind = DIST_exponential; d->p1 = lambda; d->p2 = 0; }           /* std::exponential_distribution(lambda): lambda is the RATE */
 static inline void Dist__uniform(Dist *d, double a, double b) { d->kind = DIST_uniform; d->p1 = a; d->p2 = b; }
 static inline void DistU__uniform(DistU *d, unsigned long a, unsigned long b) { d->a = a; d->b = b; }
+double in_r;     /* the last variate drawn from a continuous distribution object (named so that counterexample traces show it) */
 static inline double Dist__op_call(Dist *d, Rng *g) { verif_dist_kind = d->kind; verif_dist_p1 = d->p1; verif_dist_p2 = d->p2; double r = nondet_double();
   if (d->kind == DIST_uniform) __CPROVER_assume(r >= d->p1 && (r < d->p2 || d->p1 == d->p2));   /* TRUSTED: uniform_real_distribution draws from [a, b) */
-  return r; }
+  in_r = r; return r; }
 static inline unsigned long DistU__op_call(DistU *d, Rng *g) { unsigned long r = nondet_ulong(); __CPROVER_assume(r >= d->a && r <= d->b);   /* TRUSTED: uniform_int_distribution draws from [a, b] */
   return r; }
 double __CPROVER_uninterpreted_sqrt(double);
@@ -107,7 +108,7 @@ def L(var, bound, assigns=(), inv=(), dec=None):
     return dict(assigns=a, invariant=['%s <= %s' % (var, bound)] + list(inv), decreases=dec or '%s - %s' % (bound, var))
 
 RT = 'bpp::RandomTools::'
-GH = ['verif_dist_kind', 'verif_dist_p1', 'verif_dist_p2']
+GH = ['verif_dist_kind', 'verif_dist_p1', 'verif_dist_p2', 'in_r']
 FUNCS = [
     # ---- conventions: "a mean argument is the mean, a rate argument is the rate, a variance argument is the variance" ----
     dict(cname='RandomTools__randGaussian', qname=RT + 'randGaussian', requires=['!VERIF_ISNAN(mean)'],
@@ -214,7 +215,7 @@ void h(void) { Vec_int v; v.d = (int*)verif_new_array(VEC_BCAP, sizeof(int)); v.
   __CPROVER_assert(0, "verif_canary reachable after call"); }
 '''
 H_MULTI = r'''
-double in_p[K + 1]; double in_r;
+double in_p[K + 1];
 void h(void) { Vec_double probs; probs.d = (double*)verif_new_array(VEC_BCAP, sizeof(double)); probs.n = K; _Bool some = 0;
   for (unsigned long i = 0; i < K; ++i) { in_p[i] = nondet_double(); __CPROVER_assume(in_p[i] == 0.0 || (in_p[i] >= 0.001 && in_p[i] <= 1000.0)); if (in_p[i] > 0) some = 1; probs.d[i] = in_p[i]; }
   __CPROVER_assume(some); verif_exc = 0;
